@@ -377,6 +377,7 @@ structure Base where
   cls       : Felt → Option Nat
   casm      : Felt → Option Felt
   casmV2    : Felt → Option Felt
+  lastUpd   : Felt → Felt → Option Nat := fun _ _ => none   -- ContractStorageLastUpdatedBlock
 
 /-- `pending.State{stateDiff, newClasses, head}` -/
 structure PState where
@@ -404,6 +405,13 @@ def PState.storage (p : PState) (a k : Felt) : Option Felt :=
   match AMap.get p.diff.storage (a, k) with
   | some v => some v
   | none => if AMap.has p.diff.deployed a then some 0 else p.head.storage a k
+
+/-- `ContractStorageLastUpdatedBlock`: the block number the state was requested for whenever the
+merged diff holds the slot (see `Props.lean`: this is not the block that wrote it) -/
+def PState.lastUpdated (p : PState) (a k : Felt) : Option Nat :=
+  if AMap.has p.diff.storage (a, k) then some p.blockNumber
+  else if AMap.has p.diff.deployed a then some 0
+  else p.head.lastUpd a k
 
 /-- `Class` (the definition; `At` is always 0 for a class of the view) -/
 def PState.cls (p : PState) (h : Felt) : Option Nat :=
@@ -507,5 +515,17 @@ def St.apply (s : St) (d : Diff) (classes : AMap Felt Nat) : St :=
     cls := fun h => match AMap.get classes h with | some c => some c | none => s.cls h
     casm := fun h => match AMap.get d.declaredV1 h with | some c => some c | none => s.casm h
     casmV2 := fun h => match AMap.get d.migrated h with | some c => some c | none => s.casmV2 h }
+
+/-- the number of the newest block of `es` (oldest first) whose diff writes slot `(a, k)` -/
+def lastWriter (es : List PreConf) (a k : Felt) : Option Nat :=
+  (es.reverse.find? (fun e => AMap.has e.diff.storage (a, k))).map (·.number)
+
+/-- what `ContractStorageLastUpdatedBlock` through a view of blocks `es` over `head` ought to say:
+the newest writing block of the view; for a slot the view does not write, 0 if the view deploys the
+contract, else what the base says -/
+def lastUpdatedSpec (es : List PreConf) (head : Base) (a k : Felt) : Option Nat :=
+  match lastWriter es a k with
+  | some n => some n
+  | none => if es.any (fun e => AMap.has e.diff.deployed a) then some 0 else head.lastUpd a k
 
 end Juno.C20
